@@ -7,6 +7,7 @@ import (
 	"os"
 	"path/filepath"
 	"testing"
+	"time"
 
 	"github.com/tailscale/setec/audit"
 	"github.com/tailscale/setec/db"
@@ -106,3 +107,102 @@ var c03shared = &h.Campaign[SharedCase]{
 func init() { c03shared.Register() }
 
 func TestC03SharedHandle(t *testing.T) { c03shared.Check(t) }
+
+// ---- C03: a rolling restart ----------------------------------------------------------------------
+//
+// The operator starts the new server process on the same database file and stops the old one a
+// little later (its context is cancelled while the new one is already answering).  Nothing the new
+// instance acknowledged may be missing afterwards: an instance that is shutting down has nothing to
+// say about the file any more.
+
+type RollingCase struct {
+	Before []dbx.Op `json:"before"` // through the old instance, before the new one starts
+	After  []dbx.Op `json:"after"`  // through the new instance, while the old one is idle
+	Later  []dbx.Op `json:"later"`  // through the new instance, after the old one was stopped
+}
+
+func runC03Rolling(t *testing.T, c RollingCase) (*h.Violation, h.Info) {
+	var info h.Info
+	dir := caseDir(t)
+	defer os.RemoveAll(dir)
+	path := filepath.Join(dir, "db")
+	key := dbx.DummyKey()
+	su := dbx.Super()
+	start := func() (*dbx.HTTPTarget, context.CancelFunc, error) {
+		ctx, cancel := context.WithCancel(context.Background())
+		mux := http.NewServeMux()
+		_, err := server.New(ctx, server.Config{DBPath: path, Key: key, AuditLog: audit.New(io.Discard), Mux: mux,
+			WhoIs: func(context.Context, string) (*apitype.WhoIsResponse, error) { return dbx.WhoIsOf(su), nil }})
+		return &dbx.HTTPTarget{Mux: mux, AddrOf: dbx.AddrOf}, cancel, err
+	}
+	tr := dbx.NewTracker()
+	tr.Wire = true
+	run := func(tgt dbx.Target, ops []dbx.Op, phase string) *h.Violation {
+		for i, op := range ops {
+			ver := tr.Resolve(op)
+			want := tr.Expect(su.Rules, op, ver)
+			if diff := dbx.Compare(tgt.Do(su, op, ver), want); diff != "" {
+				return h.V("result-equals-model", "%s, step %d %s: %s", phase, i, op, diff)
+			}
+		}
+		return nil
+	}
+	reopened := func(when string) *h.Violation {
+		d2, err := dbx.OpenDiscard(path, key)
+		if err != nil {
+			return h.V("reopen-succeeds", "%s: %v", when, err)
+		}
+		dump, err := dbx.Dump(d2)
+		if err != nil {
+			return h.V("reopen-equals-model", "%s: %v", when, err)
+		}
+		if diff := dbx.DumpDiff(dump, tr.M); diff != "" {
+			return h.V("reopen-equals-model", "%s: the file holds %s", when, diff)
+		}
+		return nil
+	}
+	old, stopOld, err := start()
+	if err != nil {
+		return h.V("harness", "server.New: %v", err), info
+	}
+	defer stopOld()
+	if v := run(old, c.Before, "old instance"); v != nil {
+		return v, info
+	}
+	neu, stopNew, err := start()
+	if err != nil {
+		return h.V("harness", "second server.New on the same file: %v", err), info
+	}
+	defer stopNew()
+	b0 := tr.M.Render(true)
+	if v := run(neu, c.After, "new instance, old one idle"); v != nil {
+		return v, info
+	}
+	info.NonTrivial = tr.M.Render(true) != b0
+	stopOld()
+	time.Sleep(30 * time.Millisecond) // whatever the old instance does on its way out, it does it now
+	if v := reopened("after the old instance was stopped (the new one had acknowledged writes meanwhile)"); v != nil {
+		return v, info
+	}
+	if v := run(neu, c.Later, "new instance, old one gone"); v != nil {
+		return v, info
+	}
+	return reopened("at the end"), info
+}
+
+var c03rolling = &h.Campaign[RollingCase]{
+	Prop: "C03", Sub: "rolling-restart",
+	Rule: "rapid: two servers constructed one after the other over the same database path (each opens the file itself); 0-8 calls through the old one, then the new one starts and takes 1-8 calls while the old one sits idle, then the old one's context is cancelled (30 ms of real time are allowed for whatever it does on its way out) and the file is reopened: it holds exactly what the new instance acknowledged; 0-5 more calls, reopened again; non-trivial = the new instance changed the state while the old one was idle; distinct by scenario",
+	Quick: 120, Thorough: 8000,
+	Gen: func(rt *rapid.T) RollingCase {
+		all := dbx.GenHistory(rt, 3, 21)
+		a := rapid.IntRange(0, min(8, len(all)-1)).Draw(rt, "before")
+		b := rapid.IntRange(a+1, min(a+8, len(all))).Draw(rt, "after")
+		return RollingCase{Before: all[:a], After: all[a:b], Later: all[b:min(len(all), b+5)]}
+	},
+	Run: runC03Rolling,
+}
+
+func init() { c03rolling.Register() }
+
+func TestC03RollingRestart(t *testing.T) { c03rolling.Check(t) }
